@@ -14,7 +14,9 @@
     arguments (the value has no mutable state, poison.go l.20-25, l.77-101), so the statements
     are per message. *)
 From WM Require Import Base.Prelude Message.Model Message.Proofs Handler.RouterHandle Handler.RouterProofs
-  Handler.Poison Handler.PoisonProofs Handler.PoisonConc Handler.PoisonConcProofs.
+  Handler.Poison Handler.PoisonProofs Handler.PoisonConc Handler.PoisonConcProofs
+  Handler.PoisonRetry Handler.PoisonRetryProofs.
+From WM Require Handler.Retry.
 
 (** PoisonQueue / PoisonQueueWithFilter yield a middleware iff the topic is non-empty *)
 Theorem C13_constructor_rejects_empty_topic : forall topic f,
@@ -272,6 +274,61 @@ Print Assumptions C13_inflight_any_prefix.
 Print Assumptions C13_inflight_independent.
 Print Assumptions C13_inflight_in_router.
 Print Assumptions C13_inflight_shared_variable_refuted.
+
+(** ** the real Retry middleware INSIDE the poison queue: PoisonQueue(Retry(h)) - composition of
+    C12's model [Retry.retry] with [poison] (Handler/PoisonRetry.v); for every Retry
+    configuration, handler script [h : nat -> (outputs, error id)], timing/select environment,
+    poison configuration, message and publisher behaviour *)
+Section C13_retry.
+  Context (txt : err -> N) (errof : N -> err).
+
+  (** some attempt succeeded: the FIRST success is passed on unchanged, nothing is poisoned *)
+  Theorem C13_retry_success_not_poisoned : forall cfg c0 m0 seen pre acts rc h env pp,
+    Retry.is_ok (Retry.r_out (Retry.retry rc h env)) = true ->
+    exists n, Retry.calls (Retry.r_trace (Retry.retry rc h env)) = seq 0 (S n)
+              /\ Retry.is_ok (h n) = true /\ (forall j, j < n -> Retry.is_ok (h j) = false)
+              /\ poison_retry txt errof cfg c0 m0 seen pre acts rc h env pp
+                 = (MRet (fst (h n)) None, [], fst (run_acts acts (m0, c0))).
+  Proof. exact (poison_retry_success txt errof). Qed.
+
+  (** with n+1 invocations made by Retry: poisoned EXACTLY WHEN all n+1 attempts failed and the
+      filter accepts the LAST error (and the message has a metadata map and a publisher exists);
+      then exactly one Publish of the stamped message whose reason is the LAST error's text, and
+      success is reported iff that publish was accepted *)
+  Theorem C13_retry_poisoned_exactly_when_all_attempts_failed :
+    forall cfg c0 m0 seen pre acts rc h env pp n,
+    Retry.calls (Retry.r_trace (Retry.retry rc h env)) = seq 0 (S n) ->
+    let m := fst (run_acts acts (m0, c0)) in
+    let c := snd (run_acts acts (m0, c0)) in
+    let le := errof (snd (h n)) in
+    let '(r, ev, mf) := poison_retry txt errof cfg c0 m0 seen pre acts rc h env pp in
+    (poison_pubs ev <> [] <->
+       (forall j, j <= n -> Retry.is_ok (h j) = false) /\ accepts cfg le = FYes
+       /\ pm_meta m <> None /\ pp <> PPNil)
+    /\ (forall md, (forall j, j <= n -> Retry.is_ok (h j) = false) -> accepts cfg le = FYes ->
+          pm_meta m = Some md -> pp <> PPNil ->
+          poison_pubs ev = [(pq_topic cfg, PM (pm_uuid m0) (pm_payload m) (Some (stamp c (txt le) md)))]
+          /\ ((exists o, r = MRet o None) <-> pp = PPAccept)).
+  Proof. exact (poison_retry_exactly txt errof). Qed.
+
+  (** inside a Router: Acked through poison(retry(h)) implies handled by some attempt, or all
+      attempts failed and the message is in the poison topic with the last error as reason *)
+  Theorem C13_retry_acked_implies_handled_or_poisoned : forall cfg c0 m0 acts rc h env pp pk pb,
+    let '(ms, tr, r, mf) := poison_retry_in_router txt errof cfg c0 m0 PreNone acts rc h env pp pk pb in
+    st ms = Acked ->
+    exists n, Retry.calls (Retry.r_trace (Retry.retry rc h env)) = seq 0 (S n)
+      /\ ((Retry.is_ok (h n) = true /\ (forall j, j < n -> Retry.is_ok (h j) = false) /\ poison_pubs (pproj tr) = [])
+          \/ ((forall j, j <= n -> Retry.is_ok (h j) = false)
+              /\ accepts cfg (errof (snd (h n))) = FYes /\ pp = PPAccept /\ pub_oks (pproj tr) = 1
+              /\ exists md, pm_meta (fst (run_acts acts (m0, c0))) = Some md
+                   /\ poison_pubs (pproj tr) =
+                        [(pq_topic cfg, PM (pm_uuid m0) (pm_payload (fst (run_acts acts (m0, c0))))
+                                           (Some (stamp (snd (run_acts acts (m0, c0))) (txt (errof (snd (h n)))) md)))])).
+  Proof. exact (poison_retry_router_acked txt errof). Qed.
+End C13_retry.
+Print Assumptions C13_retry_success_not_poisoned.
+Print Assumptions C13_retry_poisoned_exactly_when_all_attempts_failed.
+Print Assumptions C13_retry_acked_implies_handled_or_poisoned.
 
 (** the same schedule on the real semantics publishes message 0 *)
 Example C13_inflight_witness :
